@@ -19,6 +19,17 @@ failing error handler or an unsendable header):
   J1  when the client asks for JSON (Accept: application/json...) and the response is not the last-resort
       page, the error body parses as JSON; whenever the response is labelled application/json it parses as JSON.
 
+Application configurations: the statement's only condition is "debug off".  Every case runs with debug=False;
+`catchall` (a different switch: whether a failure of the WSGI layer itself is answered with the last-resort page
+or re-raised to the server) is swept over {True (default), False} (case field catchall, absent = True).  With
+catchall=False and debug off the error pages are held to exactly the same clauses; a request whose exception is
+re-raised to the server produces no page and nothing is claimed for it.  debug=True is a developer mode about
+which the statement says nothing: it is not generated.
+Handlers whose exception text repeats request data (500int: int() of the path -> ValueError quoting the path;
+500echo / 500echoiter: an exception, raised by the handler / by its generator, whose message quotes path, raw
+and unquoted query string, Host, X-Forwarded-Host and X-Forwarded-Proto): with debug off whatever the page shows
+of that text is request-controlled text and is held to X1-X4 like the URL.
+
 Accepted without judgement: status codes, which of the error pages a request ends up with, whether the URL
 is shown at all, header values, the last-resort page being HTML even when JSON was asked for, exception
 text inside JSON bodies.
@@ -37,6 +48,8 @@ BENIGN = 'harmlesstext'
 
 KINDS = ['404', '405', '400path', '400chunk', '413', '500', '500iter', '500type',
          'crit404handler', 'crit500handler', 'critheader']
+ECHO_KINDS = ['500int', '500echo', '500echoiter']      # the handler's exception text repeats request data
+ALL_KINDS = KINDS + ECHO_KINDS
 ACCEPTS = ['', 'text/html', 'application/json', 'application/json, text/plain, */*']
 WHERES = ['path', 'query', 'host', 'xfh', 'proto', 'all']
 
@@ -54,9 +67,14 @@ BOUND = ('error kinds %s x rendering (Accept in %s) x position of the request te
          'format-syntax payloads (str.format fields incl. attribute access, conversions, doubled and lone braces, '
          '%%-formats), each with a marker glued to every significant character; exhaustive over that product; plus the '
          'same with a preceding request carrying another payload (quick: sampled; thorough: all) and seeded random '
-         'payloads built from the significant characters'
-         % ('{' + ', '.join(KINDS) + '}', ACCEPTS, len(MARKUP), len(FORMATS)))
-NONTRIVIAL_RULE = 'distinct (kind, accept, where, payload, previous); every case carries at least one significant character'
+         'payloads built from the significant characters; all with debug=False, catchall default (True). '
+         'Added: handler kinds whose exception text repeats the request data (%s) x catchall in {True, False} x Accept in '
+         '{none, application/json} x every position x every payload (exhaustive); the other kinds with catchall=False x '
+         'Accept in {none, application/json} x position in {path, all} x 6 markup + 2 format payloads; 400 seeded '
+         'random payloads over all kinds x catchall in {True, False}; debug=True is not generated (statement: debug off)'
+         % ('{' + ', '.join(KINDS) + '}', ACCEPTS, len(MARKUP), len(FORMATS), ', '.join(ECHO_KINDS)))
+NONTRIVIAL_RULE = ('distinct (kind, accept, where, payload, previous, catchall); every case carries at least one '
+                   'significant character')
 
 
 def exhaustive(tier):
@@ -88,14 +106,65 @@ def gen_cases(tier, seed):
     for _ in range(1500 if not thorough else 30000):
         p = ''.join(rnd.choice(alphabet) for _ in range(rnd.randrange(2, 14)))
         yield dict(kind=rnd.choice(KINDS), accept=rnd.choice(ACCEPTS), where=rnd.choice(WHERES), payload=p, prev=None)
+    # exception text that repeats request data; catchall on and off (debug off throughout)
+    for kind in ECHO_KINDS:
+        for catchall in (1, 0):
+            for accept in ('', 'application/json'):
+                for where in WHERES:
+                    for p in markup + formats:
+                        yield dict(kind=kind, accept=accept, where=where, payload=p, prev=None, catchall=catchall)
+    for kind in KINDS:
+        for accept in ('', 'application/json'):
+            for where in ('path', 'all'):
+                for p in markup[:4] + [markup[9], markup[12]] + [formats[0], formats[2]]:
+                    yield dict(kind=kind, accept=accept, where=where, payload=p, prev=None, catchall=0)
+    rnd2 = random.Random(seed * 101 + 2020)
+    for _ in range(400 if not thorough else 8000):
+        p = ''.join(rnd2.choice(alphabet) for _ in range(rnd2.randrange(2, 14)))
+        yield dict(kind=rnd2.choice(ALL_KINDS), accept=rnd2.choice(ACCEPTS), where=rnd2.choice(WHERES), payload=p, prev=None,
+                   catchall=rnd2.choice([0, 1]))
+    if thorough:
+        for kind, accept, where, p in prevs[:200]:
+            for pk in ECHO_KINDS:
+                for catchall in (1, 0):
+                    yield dict(kind=kind, accept=accept, where=where, payload=p, catchall=catchall,
+                               prev=dict(kind=pk, payload='"><' + M2 + 'prev>&' + M2 + ';{e.status}' + M2))
 
 
 # ---------------------------------------------------------------------------------------------
 # application and requests
 # ---------------------------------------------------------------------------------------------
-def make_app(kind):
+def _request_text(environ):
+    """Everything request-controlled, as an application might quote it in an exception message."""
+    qs = environ.get('QUERY_STRING', '')
+    return 'cannot handle %s?%s (%s) for %r / %s / %s' % (
+        environ.get('PATH_INFO'), qs, urllib.parse.unquote(qs), environ.get('HTTP_HOST'),
+        environ.get('HTTP_X_FORWARDED_HOST'), environ.get('HTTP_X_FORWARDED_PROTO'))
+
+
+def make_app(kind, catchall=True):
     import ombott
-    app = ombott.Ombott({'max_body_size': 64, 'max_memfile_size': 32, 'debug': False})
+    config = {'max_body_size': 64, 'max_memfile_size': 32, 'debug': False}
+    if not catchall:
+        config['catchall'] = False      # absent = the default (True)
+    app = ombott.Ombott(config)
+
+    @app.route('/int/{rest:path()}')
+    def crash_int(rest):
+        return 'item %d' % int(rest)    # ValueError: invalid literal for int() with base 10: '<the path text>'
+
+    @app.route('/echo/{rest:path()}')
+    def crash_echo(rest):
+        raise ValueError(_request_text(app.request.environ))
+
+    @app.route('/echoiter/{rest:path()}')
+    def crash_echo_iter(rest):
+        text = _request_text(app.request.environ)
+
+        def gen():
+            raise LookupError(text)
+            yield 'never'
+        return gen()
 
     @app.route('/m/{rest:path()}')
     def only_get(rest):
@@ -138,7 +207,7 @@ def make_app(kind):
 
 PREFIX = {'404': '/nf/', '405': '/m/', '400path': '/m/', '400chunk': '/body/', '413': '/body/', '500': '/crash/',
           '500iter': '/iter/', '500type': '/type/', 'crit404handler': '/nf/', 'crit500handler': '/crash/',
-          'critheader': '/hdr/'}
+          'critheader': '/hdr/', '500int': '/int/', '500echo': '/echo/', '500echoiter': '/echoiter/'}
 
 
 def make_request(kind, accept, where, payload):
@@ -307,8 +376,8 @@ def reference_pages():
     text is a plain word (every kind, HTML rendering; cached per process - a constant of the tree under check)."""
     if not _REFS:
         seen = set()
-        for k in KINDS:
-            r = serve(make_app(k), make_request(k, '', 'none', BENIGN))
+        for k, catchall in [(k, True) for k in KINDS] + [(k, c) for c in (True, False) for k in ALL_KINDS]:
+            r = serve(make_app(k, catchall), make_request(k, '', 'none', BENIGN))
             if r.body is not None and r.code is not None and r.code >= 400:
                 t = r.body.decode('utf8', 'replace')
                 if t not in seen:
@@ -323,7 +392,8 @@ def run_case(case):
     refs = reference_pages()
     if not refs:
         return None                     # this tree makes no error page for harmless requests: nothing to compare
-    app = make_app(kind)
+    catchall = bool(case.get('catchall', 1))
+    app = make_app(kind, catchall)
     payloads = [(payload, M)]
     prev = case.get('prev')
     if prev:
@@ -339,7 +409,7 @@ def run_case(case):
         # JSON was asked for and the last-resort HTML page came back. That page is accepted as it is only if the
         # request ends there whatever the rendering (failing error handler, unsendable header) - not if asking
         # for JSON is what broke the error response.
-        twin = serve(make_app(kind), make_request(kind, '', where, payload))
+        twin = serve(make_app(kind, catchall), make_request(kind, '', where, payload))
         if twin.exc_info_calls == 0 and twin.exc is None:
             return fail('J1.valid_json', status=res.status, content_type=res.header('Content-Type'),
                         error='JSON requested: last-resort HTML page; the HTML rendering of the same request works',
